@@ -319,6 +319,21 @@ def execute(plan: dict[str, Any]) -> dict[str, Any]:
         return {"violations": [], "digest": "", "evals": 1,
                 "harness_error": f"reference computation failed: {e}"}
     if "error" in refd:
+        from detsim import crossmode
+
+        if crossmode.slice_name():
+            # this run is made in an interpreter-configuration slice (python -O / -OO, C locale):
+            # if the very same tree parses the canonical text in a default-mode interpreter, the
+            # chart is fine and its sections were NOT delivered here - framing must not depend on
+            # how the interpreter was started
+            out = crossmode.fresh_default_outcome(gen.render(doc).encode("utf-8"))
+            if out is not None and out.get("kind") == "ok":
+                return {"violations": [{
+                    "sig": f"C06/invariance/interpreter-configuration/{refd['error']}",
+                    "detail": f"the canonical variant raises {refd['error']} in this interpreter "
+                              f"configuration ({crossmode.slice_name()}) and parses in a default-mode "
+                              "interpreter of the same tree"}],
+                    "digest": rng.digest(["interp-config", refd["error"]]), "evals": 1, "nontrivial": []}
         raise Discard("canonical-variant-rejected:" + refd["error"])
     canon_obs = refd["obs"]
     canon_digest = rng.digest(canon_obs)
